@@ -33,9 +33,28 @@ GT = "Grid.GlobalTrapezoidalGrid"
 
 def sorted_axiom(points_name):
     """g[i + k] - g[i] >= 0 for constant k > 0 when g is sorted ascending."""
+    def is_points(x):
+        """the point array itself or a numpy view / copy of it"""
+        if x == ("n", points_name):
+            return True
+        return isinstance(x, tuple) and len(x) == 4 and x[0] == "call" and isinstance(x[1], tuple) and x[1][0] == "a" and \
+            x[1][2] in ("asarray", "array", "asanyarray") and len(x[2]) >= 1 and x[2][0] == ("n", points_name)
+
     def ax(t):
+        # whole-array forms: g[k:] - g[:-k] (k > 0) and np.diff(g) are the gaps between sorted neighbours
+        if t[0] == "call" and isinstance(t[1], tuple) and t[1][0] == "a" and t[1][2] == "diff" and len(t[2]) == 1 and is_points(t[2][0]):
+            return NONNEG
         if t[0] == "op" and t[1] == "Sub":
             a, b = t[2]
+            if a[0] == "s" and b[0] == "s" and a[1] == b[1] and is_points(a[1]) and a[2][0] == "slice" and b[2][0] == "slice":
+                try:
+                    k1 = int(a[2][1][1]) if a[2][1] != ("c", "None") else None
+                    k2 = int(b[2][2][1]) if b[2][2] != ("c", "None") else None
+                except (ValueError, TypeError, IndexError):
+                    k1 = k2 = None
+                if k1 is not None and k2 is not None and k1 > 0 and k2 == -k1 and a[2][2] == ("c", "None") and b[2][1] == ("c", "None") \
+                        and a[2][3] == ("c", "None") and b[2][3] == ("c", "None"):
+                    return NONNEG
             if a[0] == "s" and b[0] == "s" and a[1] == b[1] == ("n", points_name):
                 d = poly_of_term(a[2]) - poly_of_term(b[2])
                 if d.is_const() and d.const_value() > 0:
